@@ -58,10 +58,10 @@ def dn(q):
         x = math.nextafter(x, float("-inf"))
     return x
 
-def gen_witness_model(rng, props_only=False):
+def gen_witness_model(rng, props_only=False, eq_heavy=False):
     prec = rng.choice([1, 2, 2, 3, 3, 4, 4, 6, 6, 6, 8, 10, 12])
     step = fm.step_of(prec)
-    nv = rng.choice([1, 2, 2, 3, 3, 4])
+    nv = rng.choice([1, 2, 2, 3, 3, 4]) if not eq_heavy else rng.choice([3, 3, 4])
     w, decls, B, isf = [], [], [], []
     for i in range(nv):
         if rng.random() < (0.2 if nv > 1 else 0.0) and i > 0:
@@ -72,12 +72,22 @@ def gen_witness_model(rng, props_only=False):
             lo = dn(Fraction(v) - Fraction(rng.choice([1, 2, 4, 15]), 2)); hi = up(Fraction(v) + Fraction(rng.choice([1, 2, 4, 15]), 2))
             w.append(Fraction(v)); decls.append("F %s %s" % (fm.f2h(lo), fm.f2h(hi))); B.append(max(abs(Fraction(lo)), abs(Fraction(hi)))); isf.append(True)
     posts = []
-    for _ in range(rng.choice([1, 1, 2, 2, 3, 4])):
+    nrows = rng.choice([1, 1, 2, 2, 3, 4]) if not eq_heavy else rng.choice([2, 3, 3, 4])
+    for ri in range(nrows):
         k = min(nv, rng.choice([1, 2, 2, 3]))
         xs = rng.sample(range(nv), k)
         route = rng.choice(["props", "props"] if props_only else ["lin", "lin", "lin", "new", "new", "props", "ilin"])
         rel = rng.choice(["le", "le", "le", "lt", "ge", "gt", "eq"])
-        if route == "ilin":
+        if eq_heavy:
+            # row 0: an equality over 3+ variables whose coefficients have BOTH signs (the bounds of the other terms then
+            # depend on the sign of each coefficient); the other rows: one- or two-variable inequalities around the witness
+            if ri == 0: xs = rng.sample(range(nv), rng.choice([3, nv])); rel = "eq"; route = rng.choice(["lin", "lin", "new", "props"])
+            else: xs = rng.sample(range(nv), rng.choice([1, 1, 2])); rel = rng.choice(["le", "ge", "lt", "gt"])
+        if eq_heavy and ri == 0:
+            while True:
+                cs = [Fraction(rng.choice([-3, -2, -1, -1, 1, 1, 2, 3, 4]), rng.choice([1, 1, 2, 4])) for _ in xs]
+                if min(cs) < 0 < max(cs): break
+        elif route == "ilin":
             cs = [Fraction(rng.choice([-3, -2, -1, 1, 1, 2, 3])) for _ in xs]
         else:
             cs = [Fraction(float(c)) for c in (c06.rand_coeff(rng) for _ in xs)]
@@ -150,7 +160,7 @@ def gen_witness(tier, rng):
             out.append(" ; ".join([str(prec), "|".join(decls)] + posts + ["solve", "to 400"]))
     return out
 
-C07_CLASSES = ("float_intlin_single", "float_cmp_intlin", "mixed_strict_int_succ")
+C07_CLASSES = ("float_intlin_single", "float_cmp_intlin", "mixed_strict_int_succ", "floatlineq_mixed")
 def judge(line, impl, spec):
     if impl.startswith("err NoSolution"):
         return "solve answered NoSolution on a model built around a robust witness"
@@ -189,6 +199,15 @@ def classify(line, impl, cls):
     cs = [c for c in cs if c in C07_CLASSES]
     return cs[0] if cs else None
 
+def gen_witness_eq(tier, rng):
+    n = 600 if tier == "quick" else 15000
+    out = []
+    while len(out) < n:
+        prec, decls, posts, w = gen_witness_model(rng, eq_heavy=True)
+        if posts and (" eq " in posts[0] or "eq(" in posts[0] or "flineq" in posts[0]):
+            out.append(" ; ".join([str(prec), "|".join(decls)] + posts + ["solve", "to 400"]))
+    return out
+
 def gen_unconstrained(tier, rng):
     """one float variable, NO constraint: every point of the interval is a (maximally robust) witness"""
     out = ["2 ; F 0000000000000000 3f8eb851eb851eb8 ; solve ; to 400"]       # the known witness: precision 2, [0, 0.015]
@@ -202,7 +221,9 @@ def gen_unconstrained(tier, rng):
     return out
 FAMILIES = [
     Family("fwitness", "solvef", gen_witness, split=c06.split_oracle, nontrivial=lambda c, i: True, prop_judge=judge),
+    Family("fwitness_eq", "solvef", gen_witness_eq, split=c06.split_oracle, nontrivial=lambda c, i: True, prop_judge=judge),
     Family("funconstrained", "solvef", gen_unconstrained, split=c06.split_oracle, nontrivial=lambda c, i: True, prop_judge=judge),
 ]
 FAMILIES[0].classify = classify
 FAMILIES[1].classify = classify
+FAMILIES[2].classify = classify
